@@ -158,6 +158,14 @@ fn forger(ctx: &Ctx) {
             variants.push((format!("low-order ephemeral {} with the es step omitted, attacker static", &hex(lo)[..8]), base(attacker.pk, Dh::Omit, Dh::Compute(attacker.sk, rcpt.pk), *lo), false));
             variants.push((format!("low-order ephemeral {} and low-order static with both steps omitted: all from public data", &hex(lo)[..8]), base(*lo, Dh::Omit, Dh::Omit, *lo), false));
         }
+        // ... or might be left with a STALE value when the Diffie-Hellman is refused: the previous token's output (es, which
+        // the forger knows), or other bytes the forger knows that happen to sit in a reused buffer (the ephemeral public
+        // key just read, the recipient's or the claimed public key)
+        for lo in &low {
+            variants.push((format!("claim low-order static {} with ss = DH(e, rs) again (stale buffer)", &hex(lo)[..8]), base(*lo, honest_es.clone(), honest_es.clone(), e.pk), false));
+            variants.push((format!("claim low-order static {} with ss = the ephemeral public key", &hex(lo)[..8]), base(*lo, honest_es.clone(), Dh::Value(e.pk), e.pk), false));
+            variants.push((format!("claim low-order static {} with ss = the recipient public key", &hex(lo)[..8]), base(*lo, honest_es.clone(), Dh::Value(rcpt.pk), e.pk), false));
+        }
         // low-order ephemeral: es = zeros from public data alone, combined with honest and low-order statics
         for lo in &low {
             variants.push((format!("low-order ephemeral {} (es = zeros), attacker static", &hex(lo)[..8]), base(attacker.pk, Dh::Value([0; 32]), Dh::Compute(attacker.sk, rcpt.pk), *lo), false));
